@@ -5,7 +5,7 @@ From Coq Require Import ZArith NArith List Bool.
 Import ListNotations.
 From Coq Require Import QArith.
 From AV Require Import model.Syntax model.Lexer model.Grammar model.Literal model.Display model.Rat model.UnitTypes model.Map
-  model.Units model.Compound model.UnitWord model.Eval.
+  model.Units model.Compound model.UnitWord model.Eval model.Cbor model.Codec.
 Open Scope Z_scope.
 
 Definition zs_of_chars (s : list chr) : list Z := map Z.of_N s.
@@ -112,12 +112,31 @@ Definition obs_query (input : list Z) : list Z :=
   | _ => [-1]
   end.
 
+(* tag 5: CBOR bytes of a rational (n, d) | tag 6: CBOR bytes of a unit expression | tag 7: unit expression decoded from bytes
+   | tag 8: JSON text of a rational *)
+Definition obs_rational_bytes (input : list Z) : list Z :=
+  match input with [n; d] => List.map Z.of_N (rational_bytes n d) | _ => [-1] end.
+Definition obs_compound_bytes (input : list Z) : list Z :=
+  match input with
+  | k :: rest => let '(c, _) := take_units (Z.to_nat k) rest in
+                 match compound_bytes c with Some bs => List.map Z.of_N bs | None => [-1] end
+  | _ => [-1]
+  end.
+Definition obs_compound_decode (input : list Z) : list Z :=
+  match compound_of_bytes (List.map Z.to_N input) with Some c => 1 :: dump_compound c | None => [0] end.
+Definition obs_rational_json (input : list Z) : list Z :=
+  match input with [n; d] => List.map Z.of_N (json_rational n d) | _ => [-1] end.
+
 Definition run_case (tag : Z) (input : list Z) : list Z :=
   match tag with
   | 1 => obs_lex_parse (chars_of_zs input)
   | 2 => obs_display input
   | 3 => obs_from_str input
   | 4 => obs_query input
+  | 5 => obs_rational_bytes input
+  | 6 => obs_compound_bytes input
+  | 7 => obs_compound_decode input
+  | 8 => obs_rational_json input
   | _ => [-1]
   end.
 
